@@ -3852,6 +3852,7 @@ where
         out.push(("pid_puback", sorted(&self.pid_puback)));
         out.push(("pid_pubrec", sorted(&self.pid_pubrec)));
         out.push(("pid_pubcomp", sorted(&self.pid_pubcomp)));
+        out.push(("pid_pubrel", sorted(&self.pid_pubrel)));
         let stored: Vec<String> = self
             .store
             .get_stored()
